@@ -179,6 +179,33 @@ func runC09(p *core.Prog, r *core.Report) {
 			src := setSource(call)
 			construct := fmt.Sprintf("Set #%d in %s (text from %s)", nSet, fnName(fn), src)
 			afterJSON := fn == c.Parse && sx.MustPass(c.Parse, nil, in, sx.Cut{Instrs: map[ssa.Instruction]bool{jsonStep: true}})
+			if fn != c.Parse {
+				// a helper: every call chain from Parse to it must start after the JSON step
+				var after func(f *ssa.Function, depth int) bool
+				after = func(f *ssa.Function, depth int) bool {
+					if depth > 4 {
+						return false
+					}
+					sites := staticCalls(p).callers[f]
+					if len(sites) == 0 {
+						return false
+					}
+					for _, cs := range sites {
+						if !c.FromP[cs.Caller] {
+							continue
+						}
+						if cs.Caller == c.Parse {
+							if !sx.MustPass(c.Parse, nil, cs.Instr.(ssa.Instruction), sx.Cut{Instrs: map[ssa.Instruction]bool{jsonStep: true}}) {
+								return false
+							}
+						} else if !after(cs.Caller, depth+1) {
+							return false
+						}
+					}
+					return true
+				}
+				afterJSON = after(fn, 0)
+			}
 			if afterJSON {
 				r.OK("C09-R1", construct, p.Pos(in.Pos()), "runs after the JSON step")
 			} else {
@@ -200,6 +227,7 @@ func runC09(p *core.Prog, r *core.Report) {
 				})
 				_ = recvOrg
 				okEx := fn == c.Parse && isCfgFlag && src == "cli"
+				_ = okEx
 				r.Check(okEx, "C09-R1", construct, p.Pos(in.Pos()), "the config-path flag, from its command-line text, before the JSON step (needed to find the file)", "a value is written into the user's struct before the JSON step (text from "+src+"): the JSON document — or a later, lower-priority source — overwrites it, so the higher-priority source loses")
 			}
 			// R2 guards (for sets driven by cli/env text)
